@@ -14,16 +14,25 @@ class Boom(Exception):
     pass
 
 
-class Faulty:
-    """wraps a callback: counts its invocations and raises Boom at the fail_at-th one"""
+FAULT_KINDS = {"Boom": Boom, "StopIteration": StopIteration, "KeyError": KeyError}
 
-    def __init__(self, fn, fail_at=None):
-        self.fn, self.fail_at, self.n = fn, fail_at, 0
+
+class Faulty:
+    """wraps a callback: counts its invocations and raises at the fail_at-th one (Boom, or an exception the iteration
+    machinery itself gives a meaning to: StopIteration, as a filter that calls next() on a used-up iterator raises)"""
+
+    def __init__(self, fn, fail_at=None, exc="Boom"):
+        self.fn, self.fail_at, self.n, self.exc = fn, fail_at, 0, FAULT_KINDS[exc]
+
+    def disarm(self):
+        """the same callback object, well-behaved from now on"""
+        self.fail_at, self.n = None, 0
+        return self
 
     def __call__(self, *a):
         self.n += 1
         if self.n == self.fail_at:
-            raise Boom()
+            raise self.exc()
         return self.fn(*a)
 
 
@@ -142,7 +151,8 @@ class FaultEnumeration(Leg):
                 ops[-1] = ["NU", [vids[0]], None]
                 members = [vids[0]]
             yield {"ops": ops, "u": u, "start": rng.choice(members), "caching": rng.random() < 0.5, "warm": rng.random() < 0.5,
-                   "collisions": rng.random() < 0.5}
+                   "collisions": rng.random() < 0.5,
+                   "exc": rng.choice(["Boom", "Boom", "StopIteration", "StopIteration", "KeyError"])}   # what the faulty callback raises
 
     def _build(self, case):
         w = H.World()
@@ -203,12 +213,10 @@ class FaultEnumeration(Leg):
                 for c in cbnames:
                     for k in range(1, min(counts[c], 40) + 1):
                         points += 1
-                        wr = {x: Faulty(cbs[x], fail_at=k if x == c else None) for x in cbnames}
+                        wr = {x: Faulty(cbs[x], fail_at=k if x == c else None, exc=case.get("exc", "Boom")) for x in cbnames}
                         try:
                             run(wr)
                             ended = "returned"
-                        except Boom:
-                            ended = "Boom"
                         except Exception as e:  # noqa: BLE001
                             ended = type(e).__name__
                         if w.snapshot() != snap0 or attr_view(w) != attrs0:
@@ -226,6 +234,17 @@ class FaultEnumeration(Leg):
                         if again != normal:
                             problems.append(f"{name}: after a fault at invocation {k} of {c}, repeating the call gives {str(again)[:80]} "
                                             f"instead of {str(normal)[:80]}")
+                            break
+                        # ... and with the SAME callback objects, which behave from now on
+                        for x in wr.values():
+                            x.disarm()
+                        try:
+                            again = run(wr)
+                        except Exception as e:  # noqa: BLE001
+                            again = ["raise", type(e).__name__]
+                        if again != normal:
+                            problems.append(f"{name}: after a fault ({ended}) at invocation {k} of {c}, repeating the call with the same, now "
+                                            f"well-behaved callback gives {str(again)[:80]} instead of {str(normal)[:80]}")
                             break
                     if problems:
                         break
